@@ -43,28 +43,32 @@ fn check_if_inputs_are_power_of_two(
     let mut is_even: bool = false;
 
     //if the first expression is a number literal that is a power of 2
-    if let Expression::NumberLiteral(_, val_string, _) = *box_expression {
-        let value = val_string
-            .parse::<u32>()
-            .expect("Could not parse NumberLiteral value from string to u32");
-
-        if (value != 0) && ((value & (value - 1)) == 0) {
+    if let Expression::NumberLiteral(_, val_string, exp_string) = *box_expression {
+        if is_power_of_two_literal(&val_string, &exp_string) {
             is_even = true;
         }
     }
 
     //if the first expression is a number literal that is a power of 2
-    if let Expression::NumberLiteral(_, val_string, _) = *box_expression_1 {
-        let value = val_string
-            .parse::<u32>()
-            .expect("Could not parse NumberLiteral value from string to u32");
-
-        if (value != 0) && ((value & (value - 1)) == 0) {
+    if let Expression::NumberLiteral(_, val_string, exp_string) = *box_expression_1 {
+        if is_power_of_two_literal(&val_string, &exp_string) {
             is_even = true;
         }
     }
 
     is_even
+}
+
+//A literal with an exponent (ex. 1e18) is not a power of two, and a literal of any size must not abort the analysis
+fn is_power_of_two_literal(val_string: &str, exp_string: &str) -> bool {
+    if !exp_string.is_empty() {
+        return false;
+    }
+
+    match val_string.parse::<u128>() {
+        Ok(value) => (value != 0) && ((value & (value - 1)) == 0),
+        Err(_) => false,
+    }
 }
 
 #[test]
